@@ -285,7 +285,7 @@ func c03Child(r *ev.Run, batch int) {
 				report(r, m, pre, ops, fs, judge, hist)
 			}
 			hist = append(hist, cloneOps(ops))
-			if batch == 0 && si == 0 && ti < 40 && r.NeedSample() && len(ops) > 1 {
+			if r.NeedSample() && len(ops) > 1 {
 				r.Sample(map[string]interface{}{"schema": string(s.JSON()), "transaction": opsJSON(ops)})
 			}
 			// continue from the database's real state
